@@ -460,6 +460,8 @@ def gen_world(src, profile):
             c["opts"]["do_not_copy"] = d
             if src.chance(1, 4):
                 c["dnc_as"] = "iterator"  # the names are handed over as a one-shot iterable
+            elif len(d) == 1 and src.chance(1, 2):
+                c["dnc_as"] = "string"  # a single attribute name, as a bare string
 
     # preparers
     if profile.get("preparers", True):
@@ -810,6 +812,8 @@ class World:
                 opts = dict(c.get("opts") or {})
                 if c.get("dnc_as") == "iterator" and isinstance(opts.get("do_not_copy"), list):
                     opts["do_not_copy"] = iter(opts["do_not_copy"])  # documented type: Iterable[str]
+                if c.get("dnc_as") == "string" and isinstance(opts.get("do_not_copy"), list) and len(opts["do_not_copy"]) == 1:
+                    opts["do_not_copy"] = opts["do_not_copy"][0]
                 eager = desc.get("eager", False) if c["name"] not in ("U", "N", "V") else True
                 cls = spec_class(bootstrap=eager, **opts)(cls)
             self.classes[c["name"]] = cls
